@@ -51,7 +51,7 @@ func main() {
 	if *out == "" {
 		die("-out is required")
 	}
-	t := &translator{fset: token.NewFileSet(), structs: map[string]*structInfo{}, methods: map[string]*funcInfo{}}
+	t := &translator{fset: token.NewFileSet(), absPkgs: map[string][]*ast.File{}, repo: *repo}
 
 	// ---- parse
 	for _, sp := range whitelist {
@@ -182,7 +182,7 @@ func (t *translator) collectStructs() {
 				if len(typeParamNames(ts.TypeParams)) > 1 {
 					t.unsupported(ts.Pos(), "struct %s with more than one type parameter", s.Name)
 				}
-				t.structs[u.Dir+"."+s.Name] = s
+				t.structs = append(t.structs, s)
 				u.Structs = append(u.Structs, s)
 				todo = append(todo, pending{s, st, tctx{u, typeParamNames(ts.TypeParams)}})
 			}
@@ -192,6 +192,16 @@ func (t *translator) collectStructs() {
 		for _, f := range fieldList(p.st.Fields) {
 			if f.name == "" {
 				t.unsupported(p.s.pos, "embedded field in struct %s", p.s.Name)
+			}
+			if _, ign := p.c.u.Spec.IgnoreFields[f.name]; ign {
+				p.s.Ignored = append(p.s.Ignored, f.name)
+				continue
+			}
+			if as, isAbs := p.c.u.Spec.Abstract[f.name]; isAbs {
+				a := t.absField(f.name, f.typ, p.c, as)
+				p.s.Fields = append(p.s.Fields, &fieldInfo{Name: f.name, Coq: mangle(f.name), Ty: ty{K: kAbs, A: a}})
+				p.c.u.Abs = append(p.c.u.Abs, a)
+				continue
 			}
 			ft := t.resolveType(f.typ, p.c)
 			if ft.K == kFunc || ft.K == kTuple {
@@ -211,6 +221,31 @@ func (t *translator) collectStructs() {
 			p.s.Fields = append(p.s.Fields, fi)
 		}
 	}
+}
+
+// the wrapped container type of an abstract field: *pkg.Type[T]
+func (t *translator) absField(name string, e ast.Expr, c tctx, as absSpec) *absIface {
+	x := e
+	if s, ok := x.(*ast.StarExpr); ok {
+		x = s.X
+	}
+	if ix, ok := x.(*ast.IndexExpr); ok {
+		x = ix.X
+	}
+	sel, ok := x.(*ast.SelectorExpr)
+	if !ok {
+		t.unsupported(e.Pos(), "abstract field %s whose type is not *pkg.Type[T]", name)
+	}
+	id, ok := sel.X.(*ast.Ident)
+	dir, ok2 := c.u.Imports[id.Name]
+	if !ok || !ok2 {
+		t.unsupported(e.Pos(), "abstract field %s: package of its type is not a package of this module", name)
+	}
+	a := &absIface{Field: name, Dir: dir, Type: sel.Sel.Name, Pure: map[string]bool{}, Methods: map[string]*funcInfo{}, pos: e.Pos()}
+	for _, p := range as.Pure {
+		a.Pure[p] = true
+	}
+	return a
 }
 
 func (t *translator) collectFuncs() {
@@ -240,21 +275,19 @@ func (t *translator) collectFuncs() {
 				t.unsupported(fd.Pos(), "function %s without body", name)
 			}
 			fi := &funcInfo{Unit: u, Name: name, Decl: fd, Needs: map[string]bool{}, TypeParms: map[string]bool{}}
-			key := u.Dir + ".." + name
 			if fd.Recv != nil {
 				rn, rt, tps, ok := recvInfo(fd)
 				if !ok {
 					t.unsupported(fd.Pos(), "receiver of %s", name)
 				}
-				s, ok := t.structs[u.Dir+"."+rt]
-				if !ok {
+				s := t.findStruct(u.Dir, rt, u)
+				if s == nil {
 					t.unsupported(fd.Pos(), "receiver type %s of %s is not a whitelisted struct", rt, name)
 				}
 				fi.Recv, fi.RecvName = s, rn
 				for _, tp := range tps {
 					fi.TypeParms[tp] = true
 				}
-				key = u.Dir + "." + rt + "." + name
 			} else {
 				fi.TypeParms = typeParamNames(fd.Type.TypeParams)
 			}
@@ -265,10 +298,12 @@ func (t *translator) collectFuncs() {
 			for _, p := range fieldList(fd.Type.Results) {
 				fi.Results = append(fi.Results, param{p.name, t.resolveType(p.typ, c)})
 			}
-			if _, dup := t.methods[key]; dup {
-				t.unsupported(fd.Pos(), "duplicate function %s", name)
+			for _, g := range t.funcs {
+				if g.Unit == u && g.Recv == fi.Recv && g.Name == name {
+					t.unsupported(fd.Pos(), "duplicate function %s", name)
+				}
 			}
-			t.methods[key] = fi
+			t.funcs = append(t.funcs, fi)
 			u.Funcs = append(u.Funcs, fi)
 		}
 		for n, found := range selected {
@@ -319,7 +354,7 @@ func (t *translator) sameRecvCallee(fi *funcInfo, c *ast.CallExpr) *funcInfo {
 	switch fn := c.Fun.(type) {
 	case *ast.SelectorExpr:
 		if id, ok := fn.X.(*ast.Ident); ok && fi.Recv != nil && id.Name == fi.RecvName {
-			return t.methods[fi.Recv.Dir+"."+fi.Recv.Name+"."+fn.Sel.Name]
+			return t.findMethod(fi.Recv, fn.Sel.Name)
 		}
 	}
 	return nil
@@ -376,6 +411,15 @@ func (t *translator) analyse() {
 				if c := t.sameRecvCallee(fi, x); c != nil {
 					fi.callees = append(fi.callees, c)
 				}
+				if sel, ok := x.Fun.(*ast.SelectorExpr); ok && fi.Recv != nil { // recv.field.M(...) with an abstract field
+					if fs, ok := sel.X.(*ast.SelectorExpr); ok {
+						if id, ok := fs.X.(*ast.Ident); ok && id.Name == fi.RecvName {
+							if fl := fi.Recv.field(fs.Sel.Name); fl != nil && fl.Ty.K == kAbs && !fl.Ty.A.Pure[sel.Sel.Name] {
+								fi.Writes = true
+							}
+						}
+					}
+				}
 				if sel, ok := x.Fun.(*ast.SelectorExpr); ok { // emission order only: any function of this unit with that name
 					for _, g := range all {
 						if g.Unit == fi.Unit && g.Name == sel.Sel.Name && g != fi {
@@ -384,7 +428,7 @@ func (t *translator) analyse() {
 					}
 				}
 				if id, ok := x.Fun.(*ast.Ident); ok && fi.Recv == nil {
-					if c := t.methods[fi.Unit.Dir+".."+id.Name]; c != nil {
+					if c := t.findFunc(fi.Unit.Dir, id.Name, fi.Unit); c != nil {
 						fi.callees = append(fi.callees, c)
 					}
 				}
@@ -418,7 +462,7 @@ func (t *translator) analyse() {
 // emission order inside a unit: callees first, otherwise source order
 func (t *translator) order(u *unit) []*funcInfo {
 	var mine []*funcInfo
-	for _, fi := range t.methods {
+	for _, fi := range t.funcs {
 		if fi.Unit == u {
 			mine = append(mine, fi)
 		}
@@ -487,6 +531,9 @@ func (t *translator) emit(u *unit) string {
 		for _, f := range s.containers() {
 			fmt.Fprintf(&recs, "; field %s (pointer to the container %s) is a PARAMETER of the methods, not a field", f.Name, f.Ty.S.Name)
 		}
+		for _, ig := range s.Ignored {
+			fmt.Fprintf(&recs, "; field %s IGNORED (%s)", ig, u.Spec.IgnoreFields[ig])
+		}
 		fmt.Fprintf(&recs, " *)\nRecord %s := mk%s { %s }.\n", mangle(s.Name), s.Name, strings.Join(fs, "; "))
 		for i, f := range s.Fields {
 			if f.Container {
@@ -528,10 +575,55 @@ func (t *translator) emit(u *unit) string {
 		fmt.Fprintf(&b, "From GodsGen Require %s.\n", d)
 	}
 	fmt.Fprintf(&b, "Import ListNotations.\nLocal Open Scope Z_scope.\n\n")
+	for _, a := range u.Abs {
+		// the abstract interface of a wrapped container: only the methods this file calls
+		var ns []string
+		for n := range a.Methods {
+			ns = append(ns, n)
+		}
+		sort.Strings(ns)
+		fmt.Fprintf(&b, "(* abstract interface of the wrapped container %s.%s (field %s); read-only methods: ", a.Dir, a.Type, a.Field)
+		var pure []string
+		for _, n := range ns {
+			if a.Pure[n] {
+				pure = append(pure, n)
+			}
+		}
+		fmt.Fprintf(&b, "%s *)\n", strings.Join(pure, ", "))
+		fmt.Fprintf(&b, "Record %s_iface := mk_%s_iface {\n  %s_T : Type", a.Field, a.Field, a.Field)
+		for _, n := range ns {
+			fi := a.Methods[n]
+			parts := []string{a.Field + "_T"}
+			for _, p := range fi.Params {
+				parts = append(parts, t.coqType(p.Ty, u))
+			}
+			var rs []ty
+			for _, r := range fi.Results {
+				rs = append(rs, r.Ty)
+			}
+			res := t.resultType(rs, u)
+			if fi.Writes {
+				res = "(" + a.Field + "_T * " + res + ")"
+			}
+			parts = append(parts, res)
+			fmt.Fprintf(&b, ";\n  %s_%s : %s", a.Field, n, strings.Join(parts, " -> "))
+		}
+		fmt.Fprintf(&b, " }.\n\n")
+	}
+	if len(u.Abs) > 0 {
+		fmt.Fprintf(&b, "Section Wrapped.\n")
+		for _, a := range u.Abs {
+			fmt.Fprintf(&b, "Variable %s_I : %s_iface.\n", a.Field, a.Field)
+		}
+		b.WriteString("\n")
+	}
 	b.WriteString(recs.String())
 	for _, fi := range u.Funcs {
 		b.WriteString(fi.text)
 		b.WriteString("\n")
+	}
+	if len(u.Abs) > 0 {
+		fmt.Fprintf(&b, "End Wrapped.\n\n")
 	}
 	fmt.Fprintf(&b, "Definition source_file : string := %s%%string.\n", strconv.Quote(u.Spec.GoFile))
 	sorted := append([]string(nil), names...)
